@@ -30,7 +30,7 @@ var Metas = map[string]Meta{
 	"C02": {Category: "exploration", Rule: "one run = one stream accepted by compress/flate (stdlib or fastgo encoder history, or block synthesiser) read through a drawn source kind, delivery schedule and Read-size schedule; non-trivial = stdlib accepts and the output is non-empty; distinct = distinct schedule signature (source refill sizes/outcomes, result)"},
 	"C03": {Category: "exploration", Rule: "one run = one malformed/truncated/random input (planted structural fault, blind mutation, truncation; every 17th (thorough: 67th) run index sweeps the truncation point over every byte of a small valid stream) on a fresh or reused Reader; non-trivial = non-empty input; distinct = distinct schedule signature"},
 	"C04": {Category: "exploration", Rule: "one run = one valid or truncated stream read all-at-once and under 8 (12 thorough) delivery/Read-size schedules, three of them aimed at a block header or block end; one evaluation = one schedule; non-trivial = non-empty input; distinct = distinct schedule signature"},
-	"C05": {Category: "exploration", Rule: "one run = valid stream/container followed by a suffix, read to io.EOF through a source kind and constructor; non-trivial = non-empty suffix; distinct = distinct schedule signature"},
+	"C05": {Category: "exploration", Rule: "every 193rd run index sweeps 300 (thorough 900) consecutive payload lengths of one encoder setting with a suffix behind the stream; otherwise one run = valid stream/container followed by a suffix, read to io.EOF through a source kind and constructor; non-trivial = non-empty suffix; distinct = distinct schedule signature"},
 	"C06": {Category: "exploration", Rule: "one run = one gzip/zlib Writer history (header fields, level, partition, Reset reuse) executed by fastgo and by the stdlib Writer; every cleanly closed container is read by the opposite implementation; non-trivial = at least one byte written; distinct = distinct schedule signature"},
 	"C07": {Category: "fault_enumeration", Rule: "for each sampled well-formed container: every truncation point and every single-bit flip (containers up to 420 bytes; sampled positions above), plus 60 sampled double flips / byte substitutions; one evaluation = one damaged container read through the drawn source and Read schedule; non-trivial = every damaged run; distinct = distinct schedule signature"},
 	"C08": {Category: "exploration", Rule: "one run = 1..6 gzip members (fastgo or stdlib Writers, synthesised streams, empty members), optional trailing data, read in default mode or with Multistream(false)+Reset; non-trivial = more than one member; distinct = distinct schedule signature"},
